@@ -1003,7 +1003,12 @@ impl<C: CellType> OptRebuild<'_, C> {
         let mut constant = HashSet::new();
         let mut dependents = HashMap::new();
         let mut depends_on = HashMap::new();
+        let mut seen = HashSet::new();
         for var in vars {
+            // A variable may be listed twice (e.g., as both read and pending).
+            if !seen.insert(var) {
+                continue;
+            }
             if let Some(write) = sub_state.written.get(&var) {
                 if let OptWrite::Known(written) = write {
                     if self.compare(Expr::var(var), written) {
